@@ -1,5 +1,14 @@
 use probminhash::setsketcher::SetSketchParams;
 use std::path::Path;
+/// (b, m, a, q) read from the Debug text (the fields are private)
+fn fields(p: &SetSketchParams) -> (f64, u64, f64, u64) {
+    let t = format!("{:?}", p);
+    let get = |k: &str| -> String {
+        let i = t.find(&format!("{}: ", k)).unwrap() + k.len() + 2;
+        t[i..].split(|c| c == ',' || c == ' ' || c == '}').next().unwrap().to_string()
+    };
+    (get("b").parse().unwrap(), get("m").parse().unwrap(), get("a").parse().unwrap(), get("q").parse().unwrap())
+}
 fn main() {
     std::panic::set_hook(Box::new(|_| {}));
     let dir = std::env::args().nth(1).unwrap();
@@ -9,6 +18,32 @@ fn main() {
     let full = std::fs::read(dir.join("parameters.json")).unwrap();
     println!("FILE {}", String::from_utf8_lossy(&full));
     let mut bad = 0;
+    // value round trip of the intact file, as the property states it: m and q exactly; a and b exactly when they have at
+    // most 15 significant decimal digits, otherwise within one unit in the last place
+    let long1 = p;
+    let long2 = SetSketchParams::new(1.0000123456789012, 123457, 19.999999999123457, 65535);
+    let short1 = SetSketchParams::new(1.001, 4096, 20.123456789, 65534);
+    let short2 = SetSketchParams::new(1.25, 7, 19.5, 254);
+    for (q0, exact) in [(long1, false), (long2, false), (short1, true), (short2, true)] {
+        q0.dump_json(dir).unwrap();
+        match std::panic::catch_unwind(|| SetSketchParams::reload_json(dir)) {
+            Ok(Ok(q)) => {
+                let (b0, m0, a0, k0) = fields(&q0);
+                let (b1, m1, a1, k1) = fields(&q);
+                let tol = if exact { 0 } else { 1 };
+                let ulps = |x: f64, y: f64| (x.to_bits() as i128 - y.to_bits() as i128).abs();
+                if m0 != m1 || k0 != k1 || ulps(b0, b1) > tol || ulps(a0, a1) > tol {
+                    println!("OK-DIFFERENT value round trip: dumped {:?} reloaded {:?}", q0, q);
+                    bad += 1;
+                }
+            }
+            _ => {
+                println!("PANIC-OR-ERR reload of an intact dump of {:?}", q0);
+                bad += 1;
+            }
+        }
+    }
+    p.dump_json(dir).unwrap();
     for cut in 0..full.len() {
         std::fs::write(dir.join("parameters.json"), &full[..cut]).unwrap();
         let r = std::panic::catch_unwind(|| SetSketchParams::reload_json(dir));
